@@ -742,7 +742,21 @@ Section Sim.
       - (* helperMissing *) apply q_log_write; auto.
       - (* blockHelperMissing *)
         apply rr_bind; [apply q_log_write; auto|]. intros _ s1 s1' _ HR1 Hs1. apply Hor; auto.
-      - (* local *) apply q_log_write; auto.
+      - (* local *)
+        cbv zeta. destruct (starts_with (`"w:") name).
+        { apply q_out_write; [destruct HR as (c & -> & Hc); Rx|exact Hs]. }
+        destruct (starts_with (`"e:") name); [|apply q_log_write; auto].
+        destruct HR as (c & -> & Hc).
+        match goal with
+        | |- context [log_entry (upd s root c) ?x] =>
+            change (log_entry (upd s root c) x) with (upd (log_entry s x) root c)
+        end.
+        match goal with
+        | |- outcome_rel _ _ _ _ (let '(_, _) := do_escape r ?txt ?t in _) _ =>
+            destruct (q_do_escape txt t c Hc Hs) as (H1 & H2 & H3);
+            destruct (do_escape r txt t) as [o s3], (do_escape r' txt (upd t root c)) as [o' s3']
+        end.
+        cbn [fst snd] in *. subst o'. apply q_out_write; assumption.
     Qed.
 
     Lemma s_ed dt s s' : npd dt -> R s s' -> st_np s ->
